@@ -24,11 +24,18 @@ def log(msg):
     sys.stderr.flush()
 
 
+JTMP = os.path.join(BUILD, "jtmp")
+
+
 def run(cmd, env=None, cwd=None, timeout=None, stdout=None):
     e = dict(os.environ)
     e.update({"CARGO_NET_OFFLINE": "true"})
     if env:
         e.update(env)
+    if cmd and cmd[0] == "timeout" and len(cmd) > 2 and cmd[2] in ("tlc", "apalache-mc"):
+        # the JVM's scratch files (SANY unpacks the standard modules on every start) stay under build/, not /tmp
+        os.makedirs(JTMP, exist_ok=True)
+        e["JAVA_TOOL_OPTIONS"] = (e.get("JAVA_TOOL_OPTIONS", "") + " -Djava.io.tmpdir=" + JTMP).strip()
     t0 = time.time()
     try:
         p = subprocess.run(cmd, env=e, cwd=cwd, timeout=timeout, stdout=stdout or subprocess.PIPE,
